@@ -1,13 +1,599 @@
-// Package c08 is the correspondence harness for property C08 (placeholder).
+// Package c08 is the correspondence harness for property C08: plugins register (stub.Start) on
+// a real Adaptation while runtime goroutines create containers inside
+// BlockPluginSync()/Unblock() and keep the runtime's own store inside the block; everything is
+// logged with one global sequence counter and judged by the Lean driver (trace acceptance by
+// the lock model + exactly-once / blocks-hold evaluated directly on the log).
 package c08
 
 import (
-	"errors"
+	"context"
+	"encoding/json"
+	"fmt"
+	"os"
+	"path/filepath"
+	"runtime"
+	"sort"
+	"strconv"
+	"strings"
+	"sync"
+	"sync/atomic"
+	"time"
 
+	"github.com/containerd/nri/pkg/adaptation"
+	"github.com/containerd/nri/pkg/api"
+
+	"verifh/c08/rt"
 	"verifh/internal/hx"
 	"verifh/internal/lineio"
 )
 
+// event kinds in the log
+const (
+	evBlock = iota
+	evRelay
+	evRecord
+	evUnblock
+	evSyncBegin
+	evSnapshot
+	evSyncRet
+)
+
+// In is one generated case: a schedule *generator* configuration (the schedule itself is the
+// Go runtime's; the observed history is the observation).
+type In struct {
+	Kind      string `json:"kind"`       // race | hold
+	Idx       int    `json:"idx"`        // case number within the run
+	P         int    `json:"P"`          // registering plugins
+	G         int    `json:"G"`          // creator goroutines
+	Pre       int    `json:"pre"`        // containers created before any plugin connects
+	Extra     int    `json:"extra"`      // creations per goroutine after every plugin synchronised
+	Batch     int    `json:"batch"`      // max creations inside one block
+	Order     string `json:"order"`      // relay-first | record-first | mixed
+	Procs     int    `json:"procs"`      // GOMAXPROCS for the case
+	MaxC      int    `json:"maxc"`       // hard cap on creations
+	StaggerUs []int  `json:"stagger_us"` // delay before plugin i connects
+	Indices   []int  `json:"indices"`    // two-digit plugin indices
+	HoldMs    int    `json:"hold_ms"`    // kind hold: how long the block is held with plugins pending
+	Contend   int    `json:"contend"`    // goroutines of plugin 0 issuing unsolicited updates (contends the adaptation mutex)
+	DwellUs   int    `json:"dwell_us"`   // how long UpdateFn keeps the adaptation mutex
+	SyncLagUs int    `json:"synclag_us"` // SyncFn dwells this long between snapshot delivery and returning
+	FailSync  []int  `json:"fail_sync"`  // plugins whose Synchronize handler returns an error (never activated)
+	Seed      int64  `json:"seed"`
+}
+
+type SyncObs struct {
+	S   int64   `json:"s"`   // stamp inside the plugin's Synchronize handler
+	N   int64   `json:"n"`   // SyncFn invocation marker received
+	Ids []int64 `json:"ids"` // container ids received
+}
+
+type PlugObs struct {
+	P       int       `json:"p"`
+	Started bool      `json:"started"` // stub.Start returned nil
+	Err     string    `json:"err"`
+	Syncs   []SyncObs `json:"syncs"`
+	Got     []int64   `json:"got"` // ids of CreateContainer requests, in receipt order
+}
+
+type Obs struct {
+	Status  string    `json:"status"` // ok | blocked | error
+	Note    string    `json:"note"`
+	Ev      [][]int64 `json:"ev"`    // [kind, seq, a, b], sorted by seq
+	Snaps   [][]int64 `json:"snaps"` // per SyncFn invocation: ids handed to the callback
+	Plugins []PlugObs `json:"plugins"`
+	Store   []int64   `json:"store"` // the runtime's store at the end, in insertion order
+	Creates int       `json:"creates"`
+	WallMs  int64     `json:"wall_ms"`
+}
+
+type env struct {
+	in      In
+	rt      *rt.Runtime
+	storeMu sync.Mutex
+	store   []int64
+
+	live     atomic.Bool // SyncFn invocations before Start() returned are the start-up one
+	syncN    atomic.Int64
+	syncDone atomic.Int64
+	logMu    sync.Mutex
+	sev      [][]int64
+	snaps    [][]int64
+
+	nextB atomic.Int64
+	nextC atomic.Int64
+	errs  atomic.Int64
+	note  atomic.Value
+
+	pod *api.PodSandbox
+}
+
+func cid(s string) int64 {
+	n, err := strconv.ParseInt(strings.TrimPrefix(s, "c"), 10, 64)
+	if err != nil {
+		return -1
+	}
+	return n
+}
+
+func (e *env) syncFn(ctx context.Context, cb adaptation.SyncCB) error {
+	if !e.live.Load() {
+		_, err := cb(ctx, nil, nil)
+		return err
+	}
+	n := e.syncN.Add(1) - 1
+	sBegin := rt.Stamp() // requestPluginSync has returned
+	e.storeMu.Lock()
+	ids := append([]int64(nil), e.store...)
+	sSnap := rt.Stamp()
+	e.storeMu.Unlock()
+	pods := []*api.PodSandbox{rt.Pod(fmt.Sprintf("sync-%d", n))}
+	ctrs := make([]*api.Container, 0, len(ids))
+	for _, id := range ids {
+		ctrs = append(ctrs, rt.Ctr(fmt.Sprintf("c%d", id), "pod0"))
+	}
+	_, err := cb(ctx, pods, ctrs)
+	spin(e.in.SyncLagUs)
+	bad := int64(0)
+	if err != nil {
+		bad = 1
+	}
+	sRet := rt.Stamp() // before finishedPluginSync
+	e.logMu.Lock()
+	e.sev = append(e.sev, []int64{evSyncBegin, sBegin, n}, []int64{evSnapshot, sSnap, n}, []int64{evSyncRet, sRet, n, bad})
+	for int64(len(e.snaps)) <= n {
+		e.snaps = append(e.snaps, nil)
+	}
+	e.snaps[n] = ids
+	e.logMu.Unlock()
+	e.syncDone.Add(1)
+	return err
+}
+
+// updateFn runs under the adaptation mutex (Adaptation.updateContainers); dwelling here makes
+// that mutex contended, which widens every window that is only closed by it.
+func (e *env) updateFn(context.Context, []*api.ContainerUpdate) ([]*api.ContainerUpdate, error) {
+	spin(e.in.DwellUs)
+	return nil, nil
+}
+
+func spin(us int) {
+	if us <= 0 {
+		return
+	}
+	t := time.Now()
+	for time.Since(t) < time.Duration(us)*time.Microsecond {
+	}
+}
+
+// one block with k creations inside; returns the log entries
+func (e *env) blockWith(log [][]int64, k int, relayFirst func() bool) [][]int64 {
+	bid := e.nextB.Add(1) - 1
+	b := e.rt.A.BlockPluginSync()
+	log = append(log, []int64{evBlock, rt.Stamp(), bid})
+	for i := 0; i < k; i++ {
+		c := e.nextC.Add(1) - 1
+		relay := func() {
+			_, err := e.rt.A.CreateContainer(context.Background(), &api.CreateContainerRequest{
+				Pod: e.pod, Container: rt.Ctr(fmt.Sprintf("c%d", c), "pod0"),
+			})
+			if err != nil {
+				e.errs.Add(1)
+				e.note.Store("CreateContainer: " + err.Error())
+			}
+			log = append(log, []int64{evRelay, rt.Stamp(), bid, c})
+		}
+		record := func() {
+			e.storeMu.Lock()
+			e.store = append(e.store, c)
+			s := rt.Stamp()
+			e.storeMu.Unlock()
+			log = append(log, []int64{evRecord, s, bid, c})
+		}
+		if relayFirst() {
+			relay()
+			record()
+		} else {
+			record()
+			relay()
+		}
+	}
+	log = append(log, []int64{evUnblock, rt.Stamp(), bid})
+	b.Unblock()
+	return log
+}
+
+func runCase(in In, dir string) (obs Obs) {
+	t0 := time.Now()
+	obs.Status = "ok"
+	defer func() {
+		if r := recover(); r != nil {
+			obs.Status = "error"
+			obs.Note = fmt.Sprintf("panic: %v", r)
+		}
+		obs.WallMs = time.Since(t0).Milliseconds()
+	}()
+	if in.Procs > 0 {
+		prev := runtime.GOMAXPROCS(in.Procs)
+		defer runtime.GOMAXPROCS(prev)
+	}
+	e := &env{in: in, pod: rt.Pod("pod0")}
+	e.note.Store("")
+	r, err := rt.NewRuntime(dir, e.syncFn, e.updateFn)
+	if err != nil {
+		obs.Status, obs.Note = "error", "runtime: "+err.Error()
+		return
+	}
+	e.rt = r
+	e.live.Store(true)
+	defer r.Stop()
+
+	rnd := rt.NewRand(in.Seed)
+	var rndMu sync.Mutex
+	orderFn := func() bool {
+		switch in.Order {
+		case "relay-first":
+			return true
+		case "record-first":
+			return false
+		}
+		rndMu.Lock()
+		defer rndMu.Unlock()
+		return rnd.Intn(2) == 0
+	}
+	batchFn := func() int {
+		if in.Batch <= 1 {
+			return 1
+		}
+		rndMu.Lock()
+		defer rndMu.Unlock()
+		return 1 + rnd.Intn(in.Batch)
+	}
+
+	var mainLog [][]int64
+	for i := 0; i < in.Pre; i++ {
+		mainLog = e.blockWith(mainLog, 1, orderFn)
+	}
+
+	// plugins
+	plugs := make([]*rt.Plugin, in.P)
+	pobs := make([]PlugObs, in.P)
+	pmu := make([]sync.Mutex, in.P)
+	for i := 0; i < in.P; i++ {
+		i := i
+		pobs[i].P = i
+		h := rt.Hooks{
+			Sync: func(pods []*api.PodSandbox, ctrs []*api.Container) error {
+				s := rt.Stamp()
+				n := int64(-1)
+				for _, p := range pods {
+					if strings.HasPrefix(p.Id, "sync-") {
+						if v, err := strconv.ParseInt(p.Id[5:], 10, 64); err == nil {
+							n = v
+						}
+					}
+				}
+				ids := make([]int64, 0, len(ctrs))
+				for _, c := range ctrs {
+					ids = append(ids, cid(c.Id))
+				}
+				pmu[i].Lock()
+				pobs[i].Syncs = append(pobs[i].Syncs, SyncObs{S: s, N: n, Ids: ids})
+				pmu[i].Unlock()
+				for _, f := range in.FailSync {
+					if f == i {
+						return fmt.Errorf("verif: plugin %d refuses the snapshot", i)
+					}
+				}
+				return nil
+			},
+			Create: func(_ *api.PodSandbox, c *api.Container) {
+				pmu[i].Lock()
+				pobs[i].Got = append(pobs[i].Got, cid(c.Id))
+				pmu[i].Unlock()
+			},
+		}
+		p, err := rt.NewPlugin(r.Sock, fmt.Sprintf("%02d", in.Indices[i]%100), fmt.Sprintf("p%d", i), h)
+		if err != nil {
+			obs.Status, obs.Note = "error", "plugin: "+err.Error()
+			return
+		}
+		plugs[i] = p
+	}
+	defer func() {
+		for _, p := range plugs {
+			if p != nil {
+				p.Stop()
+			}
+		}
+	}()
+
+	var stop, stopU atomic.Bool
+	var wgP, wgC, wgU sync.WaitGroup
+	defer func() { stopU.Store(true); wgU.Wait() }()
+	startPlugins := func() {
+		for i := range plugs {
+			i := i
+			wgP.Add(1)
+			go func() {
+				defer wgP.Done()
+				if d := in.StaggerUs[i]; d > 0 {
+					time.Sleep(time.Duration(d) * time.Microsecond)
+				}
+				if err := plugs[i].Start(); err != nil {
+					pmu[i].Lock()
+					pobs[i].Err = err.Error()
+					pmu[i].Unlock()
+					return
+				}
+				pmu[i].Lock()
+				pobs[i].Started = true
+				pmu[i].Unlock()
+				if i == 0 {
+					for k := 0; k < in.Contend; k++ {
+						wgU.Add(1)
+						go func() {
+							defer wgU.Done()
+							upd := []*api.ContainerUpdate{{ContainerId: "c0"}}
+							for !stopU.Load() {
+								if _, err := plugs[0].Stub.UpdateContainers(upd); err != nil {
+									return
+								}
+							}
+						}()
+					}
+				}
+			}()
+		}
+	}
+	clogs := make([][][]int64, in.G)
+	startCreators := func() {
+		for g := 0; g < in.G; g++ {
+			g := g
+			wgC.Add(1)
+			go func() {
+				defer wgC.Done()
+				extra := 0
+				for !stop.Load() {
+					if e.nextC.Load() >= int64(in.MaxC) {
+						return
+					}
+					if e.syncDone.Load() >= int64(in.P) {
+						if extra >= in.Extra {
+							return
+						}
+						extra++
+					}
+					clogs[g] = e.blockWith(clogs[g], batchFn(), orderFn)
+				}
+			}()
+		}
+	}
+
+	deadline := 30 * time.Second
+	switch in.Kind {
+	case "hold":
+		// a block is taken first and held while the plugins connect, register and get
+		// configured; a container is created inside it; only then is it released
+		bid := e.nextB.Add(1) - 1
+		b := r.A.BlockPluginSync()
+		mainLog = append(mainLog, []int64{evBlock, rt.Stamp(), bid})
+		startPlugins()
+		// the plugins connect meanwhile; registrations are accepted one at a time, so the
+		// first one gets as far as requestPluginSync and waits there, the others wait
+		// unaccepted (their stub.Start returns only after the block is released). The hold
+		// stays far below the stubs' registration timeout (5 s).
+		time.Sleep(time.Duration(in.HoldMs) * time.Millisecond)
+		c := e.nextC.Add(1) - 1
+		if _, err := r.A.CreateContainer(context.Background(), &api.CreateContainerRequest{
+			Pod: e.pod, Container: rt.Ctr(fmt.Sprintf("c%d", c), "pod0")}); err != nil {
+			e.errs.Add(1)
+			e.note.Store("CreateContainer: " + err.Error())
+		}
+		mainLog = append(mainLog, []int64{evRelay, rt.Stamp(), bid, c})
+		e.storeMu.Lock()
+		e.store = append(e.store, c)
+		s := rt.Stamp()
+		e.storeMu.Unlock()
+		mainLog = append(mainLog, []int64{evRecord, s, bid, c})
+		mainLog = append(mainLog, []int64{evUnblock, rt.Stamp(), bid})
+		b.Unblock()
+		startCreators()
+	default:
+		startCreators()
+		startPlugins()
+	}
+
+	done := make(chan struct{})
+	go func() { wgC.Wait(); wgP.Wait(); close(done) }()
+	select {
+	case <-done:
+	case <-time.After(deadline):
+		stop.Store(true)
+		obs.Status = "blocked"
+		obs.Note = fmt.Sprintf("after %v: %d of %d plugins synchronised", deadline, e.syncDone.Load(), in.P)
+		select {
+		case <-done:
+		case <-time.After(5 * time.Second):
+		}
+	}
+	if obs.Status == "ok" {
+		if e.syncDone.Load() < int64(in.P) {
+			// creators stopped at the cap before every plugin synchronised: give the
+			// registrations the time they need now that no block is being taken
+			t := time.Now()
+			for e.syncDone.Load() < int64(in.P) && time.Since(t) < deadline {
+				time.Sleep(time.Millisecond)
+			}
+			if e.syncDone.Load() < int64(in.P) {
+				obs.Status = "blocked"
+				obs.Note = fmt.Sprintf("no block held for %v: %d of %d plugins synchronised", deadline, e.syncDone.Load(), in.P)
+			}
+		}
+		// wait for the last exclusive section to be left (activation happens inside it)
+		fin := make(chan struct{})
+		go func() { b := r.A.BlockPluginSync(); b.Unblock(); close(fin) }()
+		select {
+		case <-fin:
+		case <-time.After(deadline):
+			obs.Status, obs.Note = "blocked", "exclusive section never left"
+		}
+	}
+	if e.errs.Load() > 0 && obs.Status == "ok" {
+		obs.Status, obs.Note = "error", e.note.Load().(string)
+	}
+
+	// merge the logs
+	e.logMu.Lock()
+	all := append([][]int64(nil), e.sev...)
+	obs.Snaps = e.snaps
+	e.logMu.Unlock()
+	all = append(all, mainLog...)
+	for _, l := range clogs {
+		all = append(all, l...)
+	}
+	sort.Slice(all, func(i, j int) bool { return all[i][1] < all[j][1] })
+	obs.Ev = all
+	if obs.Snaps == nil {
+		obs.Snaps = [][]int64{}
+	}
+	for i := range obs.Snaps {
+		if obs.Snaps[i] == nil {
+			obs.Snaps[i] = []int64{}
+		}
+	}
+	e.storeMu.Lock()
+	obs.Store = append([]int64{}, e.store...)
+	e.storeMu.Unlock()
+	obs.Creates = len(obs.Store)
+	for i := range pobs {
+		pmu[i].Lock()
+		po := pobs[i]
+		if po.Syncs == nil {
+			po.Syncs = []SyncObs{}
+		}
+		for k := range po.Syncs {
+			if po.Syncs[k].Ids == nil {
+				po.Syncs[k].Ids = []int64{}
+			}
+		}
+		if po.Got == nil {
+			po.Got = []int64{}
+		}
+		obs.Plugins = append(obs.Plugins, po)
+		pmu[i].Unlock()
+	}
+	return
+}
+
+func generate(o *hx.Opts) []In {
+	r := o.Rand(8)
+	n := o.N(400, 12000)
+	var out []In
+	procsQuick := []int{2, 4, 8, 16}
+	procsAll := []int{1, 2, 3, 4, 8, 16, 32}
+	for i := 0; i < n; i++ {
+		in := In{Kind: "race", Idx: i, Seed: r.Int63()}
+		in.P = 1 + r.Intn(5)
+		in.G = 1 + r.Intn(6)
+		if i%4 == 0 {
+			in.P, in.G = 4, 4
+		}
+		in.Pre = r.Intn(4)
+		in.Extra = 2 + r.Intn(5)
+		in.Batch = 1 + r.Intn(3)
+		in.Order = []string{"relay-first", "record-first", "mixed", "mixed"}[r.Intn(4)]
+		if o.Thorough() {
+			in.Procs = procsAll[i%len(procsAll)]
+		} else {
+			in.Procs = procsQuick[i%len(procsQuick)]
+		}
+		in.MaxC = 1200
+		for p := 0; p < in.P; p++ {
+			d := 0
+			switch r.Intn(3) {
+			case 0:
+				d = r.Intn(300)
+			case 1:
+				d = r.Intn(3000)
+			}
+			in.StaggerUs = append(in.StaggerUs, d)
+			in.Indices = append(in.Indices, r.Intn(100))
+		}
+		if r.Intn(2) == 0 {
+			in.Contend = 1 + r.Intn(3)
+			in.DwellUs = []int{20, 50, 100, 200, 400}[r.Intn(5)]
+		}
+		if r.Intn(4) == 0 {
+			in.SyncLagUs = []int{50, 200, 1000}[r.Intn(3)]
+		}
+		in.FailSync = []int{}
+		if r.Intn(8) == 0 && in.P > 1 {
+			for p := 1; p < in.P; p++ { // plugin 0 (the contender) always succeeds
+				if r.Intn(3) == 0 {
+					in.FailSync = append(in.FailSync, p)
+				}
+			}
+		}
+		if i%10 == 9 {
+			in.Kind = "hold"
+			in.HoldMs = 5 + r.Intn(40)
+			in.G = 1 + r.Intn(3)
+		}
+		out = append(out, in)
+	}
+	return out
+}
+
+func replayRuns() int {
+	if v := os.Getenv("VERIFH_REPLAY_RUNS"); v != "" {
+		if n, err := strconv.Atoi(v); err == nil && n >= 1 {
+			return n
+		}
+	}
+	return 40
+}
+
+func workers() int {
+	if v := os.Getenv("VERIFH_WORKERS"); v != "" {
+		if n, err := strconv.Atoi(v); err == nil && n >= 1 {
+			return n
+		}
+	}
+	return 4
+}
+
 func Run(o *hx.Opts, w *lineio.Writer) error {
-	return errors.New("C08 harness not implemented")
+	var cases []In
+	if o.Replay != "" {
+		rc, err := hx.ReplayCases(o.Replay)
+		if err != nil {
+			return err
+		}
+		for _, c := range rc {
+			var in In
+			if err := json.Unmarshal(c.In, &in); err != nil {
+				return err
+			}
+			if in.Kind == "worker" {
+				continue
+			}
+			// the schedule is the Go runtime's: a replayed configuration is re-run several
+			// times (every run is judged) so that a schedule-dependent failure reproduces
+			for k := 0; k < replayRuns(); k++ {
+				cases = append(cases, in)
+			}
+		}
+	} else {
+		cases = generate(o)
+	}
+	return rt.Sharded(o, w, "C08", len(cases), workers(), func(i int) interface{} { return cases[i] }, func(i int) *lineio.Case {
+		in := cases[i]
+		if len(in.StaggerUs) < in.P || len(in.Indices) < in.P {
+			return &lineio.Case{ID: fmt.Sprintf("c08-%d", in.Idx), In: in, Obs: Obs{Status: "error", Note: "malformed input"}}
+		}
+		dir := filepath.Join(o.Scratch, fmt.Sprintf("r%d", i))
+		obs := runCase(in, dir)
+		os.RemoveAll(dir)
+		return &lineio.Case{ID: fmt.Sprintf("c08-%s-%d#%d", in.Kind, in.Idx, i), In: in, Obs: obs}
+	})
 }
